@@ -801,7 +801,42 @@ def extract_unasync(repo, parents):
     return out
 
 
-SECTIONS = [extract_models, extract_pool, extract_timeouts, extract_schemes, extract_exception_maps, extract_h2, extract_unasync]
+# ---------------------------------------------------------------------------------------------
+# C01: when is an HTTP/1.1 connection offered again
+# ---------------------------------------------------------------------------------------------
+
+def extract_h1_reuse(repo, parents):
+    tree = _parse(repo, "httpcore/_async/http11.py")
+    cls = "AsyncHTTP11Connection"
+    fn = _find_func(tree, "_response_closed", cls=cls)
+    txt = ast.unparse(fn)
+    ifs = [n for n in ast.walk(fn) if isinstance(n, ast.If) and "our_state" in ast.unparse(n.test)]
+    if len(ifs) != 1:
+        raise ExtractError("_response_closed: the reuse test was not found exactly once")
+    test = ast.unparse(ifs[0].test)
+    both = test == "self._h11_state.our_state is h11.DONE and self._h11_state.their_state is h11.DONE"
+    body = ast.unparse(ifs[0].body)
+    orelse = ast.unparse(ifs[0].orelse)
+    if "self._state = HTTPConnectionState.IDLE" not in body or "start_next_cycle" not in body:
+        raise ExtractError("_response_closed: the reuse branch does not return the connection to IDLE with start_next_cycle()")
+    if "await self.aclose()" not in orelse:
+        raise ExtractError("_response_closed: the other branch does not close the connection")
+    fn2 = _find_func(tree, "is_available", cls=cls)
+    avail = ast.unparse(fn2.body[-1])
+    out = [f"/-- `_response_closed`: `if {test}:` back to IDLE (start_next_cycle) `else:` close -/",
+           "def h1ReuseNeedsBothDone : Bool := " + ("true" if both else "false"),
+           f"/-- `is_available`: `{avail}` -/",
+           "def h1AvailableIffIdle : Bool := " + ("true" if avail == "return self._state == HTTPConnectionState.IDLE" else "false")]
+    fn3 = _find_func(tree, "handle_async_request", cls=cls)
+    gate = [n for n in ast.walk(fn3) if isinstance(n, ast.If) and ast.unparse(n.test).startswith("self._state in")]
+    ok = (len(gate) == 1 and ast.unparse(gate[0].test) == "self._state in (HTTPConnectionState.NEW, HTTPConnectionState.IDLE)"
+          and "self._state = HTTPConnectionState.ACTIVE" in ast.unparse(gate[0].body) and "ConnectionNotAvailable" in ast.unparse(gate[0].orelse))
+    out += ["/-- the gate: only a NEW or IDLE connection becomes ACTIVE, under the state lock; otherwise ConnectionNotAvailable -/",
+            "def h1GateFromNewOrIdleOnly : Bool := " + ("true" if ok else "false")]
+    return out
+
+
+SECTIONS = [extract_models, extract_pool, extract_timeouts, extract_schemes, extract_exception_maps, extract_h2, extract_unasync, extract_h1_reuse]
 
 
 def generate(repo):
